@@ -174,6 +174,13 @@ def _run(V, work, tier):
                 break
             want_ = [norm_model(r) for r in st["after"]]
             got = [norm_real(t) for t in probes[si]["tag"]]
+            # a window handed out by slice / cdr / rest must carry no spare capacity (an append to it has to reallocate)
+            spare = probes[si].get("spare") or []
+            for j, isview in enumerate(st["views"]):
+                if isview and j < len(spare) and spare[j] > 0:
+                    V.add(None, "a view keeps spare capacity: after step %d %s, g%d (a view) has %d spare cells - an append to it would write into storage it shares"
+                          % (si, expr(st["op"]), j + 1, spare[j]), {"src": src, "step": si, "variable": "g%d" % (j + 1)})
+                    break
             bad = [j for j in range(len(want_)) if j >= len(got) or not cut_eq(want_[j], got[j])]
             if bad:
                 j = bad[0]
